@@ -60,7 +60,7 @@ func registryUsedBy(p *Program, fn *ssa.Function) *types.Var {
 			if et == nil {
 				return
 			}
-			if _, isFn := et.Underlying().(*types.Signature); !isFn && typeName(et) != "reflect.Type" {
+			if _, isFn := et.Underlying().(*types.Signature); !isFn && typeName(et) != "reflect.Type" && !isCodeCtorRecord(et) {
 				return
 			}
 			if v, ok := g.Object().(*types.Var); ok {
@@ -138,6 +138,26 @@ func extractRegistry(p *Program, v *types.Var) (*Registry, error) {
 	return reg, nil
 }
 
+// isCodeCtorRecord: a record {function code, constructor}: a struct with exactly one integer field and one field
+// of function (or reflect.Type) type - the element of a registry kept as a (sorted) slice.
+func isCodeCtorRecord(t types.Type) bool {
+	st, ok := t.Underlying().(*types.Struct)
+	if !ok || st.NumFields() != 2 {
+		return false
+	}
+	ints, fns := 0, 0
+	for i := 0; i < 2; i++ {
+		ft := st.Field(i).Type()
+		if isIntType(ft) {
+			ints++
+		}
+		if _, isFn := ft.Underlying().(*types.Signature); isFn || typeName(ft) == "reflect.Type" {
+			fns++
+		}
+	}
+	return ints == 1 && fns == 1
+}
+
 // registryFromInitState: the table is built by running code during package initialisation (register calls,
 // a loop over prototypes): its entries are read off the evaluated state of the package after initialisation.
 func registryFromInitState(p *Program, v *types.Var, g *ssa.Global) (*Registry, error) {
@@ -169,6 +189,38 @@ func registryFromInitState(p *Program, v *types.Var, g *ssa.Global) (*Registry, 
 			ent.Detail = "the table entry is not a function"
 		}
 		reg.Entries = append(reg.Entries, ent)
+	}
+	// a slice of {code, constructor} records
+	recs := []*Term(nil)
+	switch val.Op {
+	case "slicev":
+		recs = val.Args
+	case "sref":
+		recs = srefElems(val)
+	}
+	if len(recs) > 0 && recs[0].Typ != nil && isCodeCtorRecord(recs[0].Typ) {
+		for _, rec := range recs {
+			ms := materialiseStruct(rec)
+			if ms == nil {
+				return nil, fmt.Errorf("registry %s: entry %s is not a record", v.Name(), cut(rec.String(), 40))
+			}
+			var key *Term
+			var ctor *Term
+			for i := range ms.FNames {
+				if isIntType(ms.Args[i].Typ) {
+					key = ms.Args[i]
+				} else {
+					ctor = ms.Args[i]
+				}
+			}
+			k, ok := key.Int64()
+			if !ok || ctor == nil {
+				return nil, fmt.Errorf("registry %s: non-constant key %s", v.Name(), key.String())
+			}
+			add(k, ctor)
+		}
+		sort.Slice(reg.Entries, func(i, j int) bool { return reg.Entries[i].Key < reg.Entries[j].Key })
+		return reg, nil
 	}
 	switch val.Op {
 	case "mapv":
